@@ -1,13 +1,28 @@
 """Which units / harnesses decide which property.  Kept as data so `check` stays generic."""
 
 # unit -> build modes in which it is verified (default: dbg only; the function text of most units is
-# identical in both expansions, the ones listed with 'rel' contain cfg(debug_assertions)-dependent code)
+# identical in both expansions; units listed with 'rel' contain cfg(debug_assertions)-dependent code
+# or entries with `mode=rel`)
 UNIT_MODES = {
+    'sdiv': ['dbg', 'rel'],
+    'addsub': ['dbg', 'rel'],
+    'powlog': ['dbg', 'rel'],
+    'div': ['dbg', 'rel'],
 }
 
+# property -> verus units owned by the property (dependencies are added automatically) and the
+# claimed level.  Kani harnesses are selected by their `property` field in kani/harnesses.json.
 PROPS = {
-    'C01': dict(units=['core_add'], title='add/sub/neg/abs exact in every overflow mode'),
+    'C01': dict(units=['core_add', 'addsub'], title='add/sub/neg/abs exact in every overflow mode'),
+    'C02': dict(units=['mul'], title='multiplication exact'),
+    'C03': dict(units=['div', 'sdiv'], title='division and remainder'),
+    'C05': dict(units=['shift_bits', 'shift_val', 'shift_rot', 'shift_ops'], title='shifts and rotations'),
+    'C07': dict(units=['cmp', 'cmp2'], title='comparison, equality, hashing'),
+    'C08': dict(units=['powlog'], title='powers and logarithms'),
+    'C11': dict(units=['radixout'], title='radix output'),
     'C14': dict(units=[], level='model_checking', title='float casts'),
+    'C15': dict(units=['slices'], title='slices and endianness'),
+    'C16': dict(units=['consts'], title='digit-type independence and constants'),
 }
 
 QUICK_DIGITS = ['u64', 'u8']
